@@ -103,7 +103,7 @@ func c08Pool() (pool []srule) {
 		{"domain=src.org"}, {"domain=other.org"}, {"domain=src.org|other.org"}, {"domain=~src.org"},
 		{"denyallow=x.com"}, {"denyallow=y.com"}, {"dnstype=A"}, {"dnstype=AAAA"}, {"dnstype=~A"},
 		{"ctag=pc"}, {"ctag=phone"}, {"client=10.0.0.1"}, {"client=10.0.0.2"},
-		{"dnsrewrite=1.2.3.4"}, {"dnsrewrite=2.3.4.5"},
+		{"dnsrewrite=1.2.3.4"}, {"dnsrewrite=2.3.4.5"}, {"dnsrewrite=NOERROR;MX;10 mx.example"}, {"dnsrewrite=NOERROR;HTTPS;10 svc.example alpn=h2"}, {"dnsrewrite=NOERROR;SRV;10 60 8080 srv.example"},
 		{"script", "third-party"}, {"third-party", "script"}, {"script", "domain=src.org"}, {"important", "script"},
 	}
 	for _, o := range optSets {
@@ -246,8 +246,8 @@ func init() {
 		})
 
 		// --- multiplicity layer
-		baseIdx := []int{0, 1, 7, 9, 13, 28, 30, 33} // plain, script, important, domain, denyallow, @@, @@important, P2
-		extraIdx := []int{1, 2, 5, 7, 8, 9, 13, 15, 18, 20, 24, 29}
+		baseIdx := []int{0, 1, 7, 9, 13, 31, 33, 36} // plain, script, important, domain, denyallow, @@, @@important, P2
+		extraIdx := []int{1, 2, 5, 7, 8, 9, 13, 15, 18, 20, 27, 32}
 		kmax := 2
 		if c.Thorough() {
 			kmax = 3
